@@ -1,6 +1,6 @@
 (* C18 — Serialisation round trips preserve meaning; key files stay private. *)
 From Coq Require Import ZArith List.
-From Gabi Require Import ModArith GoSem Bytes Codec FilePerm KeyDoc.
+From Gabi Require Import ModArith GoSem Bytes Codec FilePerm KeyDoc Revocation EventList EventListSound.
 Import ListNotations.
 Open Scope Z_scope.
 
@@ -55,3 +55,28 @@ Proof. exact key_doc_roundtrip_lem. Qed.
 Theorem privkey_mode :
   forall p umask force m, 0 <= umask < 512 -> privkey_write p umask force = Some m -> private m.
 Proof. exact privkey_mode_lem. Qed.
+
+(* Revocation messages: the compressed transport form of an event list (index and parent hash of the first event
+   plus the revocation attributes; JSON and CBOR) loses nothing for a hash chain, and the product computed while
+   reading is the product of all its events ... *)
+Theorem eventlist_roundtrip :
+  forall l, chain l ->
+  uncompress false (compress_events l) = Ok (l, None) /\
+  exists p, events_product l = Ok p /\ uncompress true (compress_events l) = Ok (l, Some p).
+Proof. exact eventlist_roundtrip_lem. Qed.
+
+(* ... every list accepted by EventList.Verify is such a chain (uint64 indices) ... *)
+Theorem verified_list_roundtrips :
+  forall l h, events_verify l h = Ok tt -> (forall e0 r, l = e0 :: r -> ev_index e0 = u64 (ev_index e0)) -> chain l.
+Proof. exact verified_list_roundtrips_lem. Qed.
+
+(* ... whatever compressed list is read, the product field is the product of the attributes read, and the events
+   reconstructed always pass the chain verification (so marking them verified is justified). *)
+Theorem uncompress_product :
+  forall c l p, uncompress true c = Ok (l, p) -> exists q, p = Some q /\ events_product l = Ok q /\ map ev_e l = cel_E c.
+Proof. exact uncompress_product_lem. Qed.
+
+Theorem uncompressed_is_chain :
+  forall cp c l p first rest,
+  uncompress cp c = Ok (l, p) -> l = first :: rest -> chain_ok first rest (ev_index first + 1) = Ok tt.
+Proof. exact uncompressed_is_chain_lem. Qed.
